@@ -13,9 +13,10 @@
 (* Everything is decided in exact dyadic arithmetic; events whose data is  *)
 (* off the lattice are reported as "unjudged" (not violations).            *)
 (***************************************************************************)
-EXTENDS GradientPaint, F32, TLC, Json, IOUtils
+EXTENDS GradientPaint, F32, Big, TLC, Json, IOUtils
 
 Trace == ndJsonDeserialize(IOEnv.VERIF_TRACE)
+Has(r, f) == f \in DOMAIN r
 VARIABLE l
 vars == << l >>
 
@@ -133,6 +134,20 @@ JudgePix(ev) ==
 RECURSIVE NormD(_, _)
 NormD(k, q) == IF k = 0 THEN << 0, 0 >> ELSE IF k % 2 = 0 THEN NormD(k \div 2, q - 1) ELSE << k, q >>
 
+(* Scales that are not powers of two: the reciprocal is not a binary fraction, so the composed matrix is rounded.  Where *)
+(* the scale N / D (pixels per unit) is itself a float32 (its reduced denominator is a power of two: 3, 5, 2.5, 3.75 ..) *)
+(* the linear entries are decided with a tolerance: m64 reports each entry exactly as sign, exponent and five 12-bit    *)
+(* limbs of the float64 significand, and  | m' * N - a * D |  <=  2^-40 * | a * D |  (float64 evaluation errs by 2^-52;  *)
+(* a reciprocal taken in float32 errs by 2^-25).  a = ka * 2^-16.                                                       *)
+Dyadic(N, D) == \E k \in 0..12 : (N * Pow2(k)) % D = 0
+LinNear(m, ka, N, D) ==
+  IF ka = 0 THEN m[3] = 0 /\ m[4] = 0 /\ m[5] = 0 /\ m[6] = 0 /\ m[7] = 0
+  ELSE /\ m[1] = (IF ka < 0 THEN 1 ELSE 0)
+       /\ m[2] < -16 /\ m[2] > -200
+       /\ LET L == BMul(BNorm(<< m[3], m[4], m[5], m[6], m[7] >>), N)
+              R == BShl(BMul(BOf(Abs(ka)), D), (-16) - m[2]) IN
+          BCmp(BAbsDiff(L, R), BShr(R, 40)) <= 0
+
 JudgeCfg(ev) ==
   LET a  == [i \in 1..6 |-> AsScaled(ev.nreg[i], 16)]
       v  == [i \in 1..4 |-> AsScaled(ev.vb[i], 6)]
@@ -144,7 +159,17 @@ JudgeCfg(ev) ==
              /\ (dx * 64) % wx = 0 /\ (dy * 64) % wy = 0 /\ IsPow2((dx * 64) \div wx) /\ IsPow2((dy * 64) \div wy)
              /\ \A i \in 1..6 : ev.m[i][1] = 1
   IN IF ev.sp # << 0, 0 >> THEN "the gradient image is not aligned with the target rectangle's corner (source point)"
-     ELSE IF ~lat THEN "unjudged"
+     ELSE IF ~lat THEN
+          \* not a power of two in some axis: the linear part within the float64 tolerance, where the scale is a float32
+          IF /\ Has(ev, "m64") /\ \A i \in 1..6 : a[i].ok /\ Abs(a[i].k) <= 65536
+             /\ \A i \in 1..4 : v[i].ok /\ Abs(v[i].k) <= 8192
+             /\ wx > 0 /\ wy > 0 /\ dx > 0 /\ dy > 0 /\ dx <= 4096 /\ dy <= 4096
+             /\ Dyadic(dx * 64, wx) /\ Dyadic(dy * 64, wy)
+             /\ \A i \in {1, 2, 4, 5} : ev.m64[i][1] \in {0, 1}
+          THEN IF /\ LinNear(ev.m64[1], a[1].k, dx * 64, wx) /\ LinNear(ev.m64[4], a[4].k, dx * 64, wx)
+                  /\ LinNear(ev.m64[2], a[2].k, dy * 64, wy) /\ LinNear(ev.m64[5], a[5].k, dy * 64, wy)
+               THEN "ok" ELSE "pixel-to-gradient matrix: linear part is not M scaled by the units-per-pixel (beyond float64 rounding)"
+          ELSE "unjudged"
      ELSE LET jx == Log2((dx * 64) \div wx)                 \* scale = 2^jx pixels per unit
               jy == Log2((dy * 64) \div wy)
               \* a * 2^-16 / 2^jx ; c - a*zBX - b*zBY with zB = -min (1/64): (c*64 + a*minx + b*miny) * 2^-22
